@@ -103,6 +103,37 @@ impl GenParams {
         }
     }
 
+    /// dense: few small packages with every feature at a high rate (hints x Unknown x exclusions x locks x constrains x
+    /// unions), so that the rare conjunctions of lazily discovered facts, eager encoding and restarts are frequent
+    pub fn dense() -> Self {
+        GenParams {
+            min_packages: 2,
+            max_packages: 6,
+            max_candidates: 3,
+            max_solvables: 24,
+            max_reqs: 3,
+            max_constrains: 2,
+            p_union: 3,
+            p_unknown: 3,
+            p_missing: 1,
+            p_excluded: 2,
+            p_locked: 1,
+            p_favored: 2,
+            p_empty_vs: 1,
+            p_self_constrain: 0,
+            p_same_pkg_union: 1,
+            hint_weights: [2, 3, 4, 4],
+            vs_weights: [3, 4, 4, 2],
+            max_root_reqs: 3,
+            max_root_constraints: 1,
+            max_soft: 0,
+            id_weights: [6, 3, 3],
+            acyclic: false,
+            root_vs_weights: None,
+            p_big_package: 0,
+        }
+    }
+
     /// mostly conflict-free (for first-choice properties)
     pub fn conflict_free() -> Self {
         GenParams {
@@ -980,6 +1011,51 @@ pub fn problems_over(rng: &mut Rng, w: &World, p: &GenParams, k: usize) -> Vec<P
         out.push(ProblemSpec { requirements, constraints, soft });
     }
     out
+}
+
+/// Large conflict family: 2..3 packages with 31..50 candidates each, every candidate pinning a shared package to a
+/// candidate that no candidate of the other packages accepts - unsatisfiable with a conflict of well over 64 clauses in
+/// which many nodes own several clauses (containers that switch representation with their size).
+pub fn large_conflict(rng: &mut Rng) -> (World, ProblemSpec) {
+    let mut w = World::default();
+    let mut next_s = 0u32;
+    let mut next_vs = 0u32;
+    let k = rng.range(2, 3) as u32;
+    let shared = k;
+    let sizes: Vec<usize> = (0..k).map(|_| rng.range(31, 50)).collect();
+    let total: usize = sizes.iter().sum();
+    let mut mk = |w: &mut World, rng: &mut Rng, name: u32, n: usize| -> Vec<u32> {
+        let c: Vec<u32> = (next_s..next_s + n as u32).collect();
+        next_s += n as u32;
+        for x in &c {
+            w.solvables.insert(*x, Solvable { name, deps: Deps::Known { requirements: vec![], constrains: vec![] } });
+        }
+        let mut rank = c.clone();
+        rng.shuffle(&mut rank);
+        w.packages.insert(name, Package { candidates: c.clone(), rank, favored: None, locked: None, excluded: vec![], hint: if rng.chance(1, 3) { Hint::All } else { Hint::None }, missing: false });
+        c
+    };
+    let pk: Vec<Vec<u32>> = (0..k).map(|n| mk(&mut w, rng, n, sizes[n as usize])).collect();
+    let sh = mk(&mut w, rng, shared, total);
+    let mut pin = 0usize;
+    let mut requirements = Vec::new();
+    for n in 0..k {
+        for c in &pk[n as usize] {
+            let vs = next_vs;
+            next_vs += 1;
+            w.version_sets.insert(vs, VersionSet { name: shared, matches: vec![sh[pin]] });
+            pin += 1;
+            w.solvables.get_mut(c).unwrap().deps = Deps::Known { requirements: vec![Req::Single(vs)], constrains: vec![] };
+        }
+        let vs = next_vs;
+        next_vs += 1;
+        let mut m = pk[n as usize].clone();
+        m.sort();
+        w.version_sets.insert(vs, VersionSet { name: n, matches: m });
+        requirements.push(Req::Single(vs));
+    }
+    rng.shuffle(&mut requirements);
+    (w, ProblemSpec { requirements, constraints: vec![], soft: vec![] })
 }
 
 /// Wide fan-out family: a solvable (the root, or a single solvable the root requires) with `width` requirements on
